@@ -21,7 +21,7 @@ PROPERTY = "C08"
 LEVEL = "fault_enumeration"
 FANOUT_CHUNK = 1
 RULE = (
-    "workloads {W1 create catalog (W1p: with two workers, crash points in the writer process), W2 overwrite a catalog of other data, W3 open a catalog without meta.yml (metadata "
+    "workloads {W1 create catalog (W1p: with two workers, crash points in the writer process), W2 overwrite a catalog of other data (W2p: with two workers; the value returned by the surviving parent must be the complete new catalog), W3 open a catalog without meta.yml (metadata "
     "computed), W4 first build_trees, W5 rebuild for other edges of the same bin count (W5f: forced), W6 rebuild binned->unbinned, W7 "
     "CorrFunc.to_file over an older file, W8 CorrData.to_files over older files, W9 Configuration.to_file over an older "
     "file} x every crash point = entry of every mutating file-system call (mkdir, creating/truncating openat, write, "
@@ -39,8 +39,8 @@ ASSUMPTIONS = [
     "sequential pipeline only (YAW_NUM_THREADS=1)",
 ]
 
-QUICK = ("W1", "W2", "W5", "W5f", "W8")
-ALL = ("W1", "W2", "W3", "W4", "W5", "W5f", "W6", "W7", "W8", "W9", "W1p")
+QUICK = ("W1", "W2", "W5", "W5f", "W7", "W8", "W2p")
+ALL = ("W1", "W2", "W3", "W4", "W5", "W5f", "W6", "W7", "W8", "W9", "W1p", "W2p")
 
 
 def norm(text, base):
@@ -167,13 +167,13 @@ def observe(wl, base):
     F = fresh()
     bad = []
     R = os.path.join(base, "R")
-    if wl in ("W1", "W1p", "W2", "W3", "W4", "W5", "W5f", "W6"):
+    if wl in ("W1", "W1p", "W2", "W2p", "W3", "W4", "W5", "W5f", "W6"):
         try:
             cat = Catalog(R)
             recs = records_of(cat)
         except Exception:
             return bad  # the next use fails with an error: fine
-        allowed = ["new"] + (["old"] if wl == "W2" else [])
+        allowed = ["new"] + (["old"] if wl in ("W2", "W2p") else [])
         which = [a for a in allowed if recs == F["records"][a]]
         if not which:
             n = sum(len(r[1]) for r in recs.values())
@@ -273,6 +273,19 @@ def run_case(case):
     if not res["matched"] or args_of(norm(res["tail"], base)) != args_of(case["text"]):
         raise RuntimeError(f"kill did not land on the recorded operation: wanted {case['text']}, got {res}")
     problems = observe(wl, base)
+    m = re.search(r"^RETURNED (.*)$", res.get("stdout", ""), re.M)
+    if m:
+        # the creation call returned in a surviving process although the process writing the cache was killed:
+        # what it returned must be the complete new catalog, anything else is stale or partial content used silently
+        import json
+
+        got = {int(k): [tuple(r) for r in v] for k, v in json.loads(m.group(1)).items()}
+        want = {pid: rows for pid, (_, rows) in fresh()["records"]["new"].items()}
+        if got != want:
+            n = sum(len(v) for v in got.values())
+            problems.append(("creation-returns-other-than-new-catalog",
+                             f"the writer process was killed, the creation call nevertheless returned a catalog with {n} "
+                             f"records that is not the complete new record set"))
     out = dict(nontrivial=True, key=[wl, case["k"]], counters=dict(kills=1),
                sample=dict(workload=wl, k=case["k"], of=case["total"], killed_before=case["text"][:120]))
     if problems:
